@@ -139,6 +139,10 @@ def obligations(tier):
            ['RP66V1.IndexXML.xml_rle_write', 'common.Rle.create_rle', 'util.XmlWrite.Element'], harness='C18_xml', func='rle_entries_small', timeout=170 if q else 600),
         Ob('rle_index_entries_expand', 'ch', 'integer sequences of length 1..4 over -3..3 (decimal) and ascending non-negative positions (hex)',
            ['RP66V1.IndexXML.xml_rle_write', 'common.Rle.create_rle', 'util.XmlWrite.Element'], harness='C18_xml', func='rle_entries', timeout=2400, tiers=('thorough',), parts=7),
+        Ob('mixed_content_text_exact', 'ch', 'every sequence of 1..7 operations over start / characters / end (nesting up to 7 deep, text before and after children): once an element has character data, '
+           'every text and tail inside it is recovered exactly (no indentation added); only element-only content may be indented',
+           ['util.XmlWrite.XmlStream.startElement/characters/endElement/_indent/_canIndent/_flipIndent/_closeElemIfOpen'], harness='C18_xml', func='mixed_content',
+           timeout=170 if q else 600, parts=9),
         Ob('document_file_with_declared_encoding', 'ch', 'XmlStream opened on a path with declared encoding utf-8 / latin-1 / ascii / cp1252; attribute and text from 8 strings '
            '(ASCII, Latin-1 letters, superscript, Greek, CJK, markup characters); parsed back from the file by expat',
            ['util.XmlWrite.XmlStream.__init__/__enter__/_encode/characters/startElement', 'XmlWrite.Element'], harness='C18_xml', func='xml_file_declared_encoding',
